@@ -33,7 +33,7 @@ def features(c: dict, alias: bool) -> dict:
     calls = calls_of(c)
     used = {cl["fn"] for cl in calls}
     clash = (alias == 1 and (({"inc", "dbl"} <= used) or ({"add", "sub"} <= used))) \
-        or (alias == 2 and len({"inc", "dbl", "neg"} & used) >= 2)
+        or (alias == 2 and len({"inc", "dbl", "neg", "id"} & used) >= 2)
     return {"repeated_argument": any(len(set(cl["args"])) < len(cl["args"]) for cl in calls),
             "same_name_functions": bool(clash),
             "untranslatable": sorted(used & cg.UNTRANSLATABLE)}
